@@ -50,6 +50,12 @@ CHECKS["C04"] = (
     "Publicity rule as read from the statement; re-exports by the __init__ of a private package are a don't-care zone (the statement's exception does not say whether they count).",
     "6/C04",
 )
+CHECKS["C12"] = (
+    E1,
+    "18 declaration letters with an explicit expected inventory (functions with all parameter kinds and default letters, tuple/None results, class with constructor, class/instance attributes assigned twice and by tuple, static/class methods, property, classes nested two deep, local/multiple/imported/aliased/dotted/foreign/generic superclasses, enums, enum in class, property with setter, overloads, async/decorated functions, private declarations), each alone and in all ordered pairs per module (9 letters quick, all 18 thorough): every id, owner list, flag, default and superclass list of the API JSON is compared with the expectation. Structural invariants (schemaVersion, sorted and duplicate-free lists, '<owner id>/<name>' id shape, reference resolution, exactly one owner) are evaluated on the complete API JSON of these runs and of all 3.6e3 C03 trees, whose modules and declarations must also all be present.",
+    "Expected inventory is hand-written per letter; functions nested in functions and un-annotated overload implementations are don't-care.",
+    "6/C12",
+)
 NOT_YET = {}  # id -> reason (filled for properties without a check)
 
 props = [json.loads(l) for l in open(V / "properties.jsonl")]
